@@ -86,7 +86,9 @@ def random_line(rng, T):
     f = rng.choice(["VOL", "ZONEBVOL", "PRESET", "PARTYVOL", "LIPSYNCHDMIOUT1OFFSET", "ZONENAME", "SCENENAME", "INPNAME", "PLAYBACK", "PWR", "MEM", "REMOTECODE",
                     "BASIC", "STRAIGHT", "DIRMODE", "NOSUCH", "INP", "SCENE1NAME"])
     v = rng.choice(["Up", "Down", "Up 1 dB", "Down 5 dB", "Up 1.0 dB", "Down x dB", "Up  2 dB", "Upstairs", "Downstairs", "Downtown 3", "Up -3 dB", "?", "", "Play", "Stop",
-                    "On", "Standby", "-30.5", "abc", "12345678", "1234567", "@UNDEFINED", "@RESTRICTED", "@x", "Up 99999999999999999999 dB"])
+                    "On", "Standby", "-30.5", "abc", "12345678", "1234567", "@UNDEFINED", "@RESTRICTED", "@x", "Up 99999999999999999999 dB",
+                    # texts some number parser or other accepts (or chokes on): stored as free text, later the base of a relative step
+                    "1/0", "3/4", "1e400", "-1e400", "nan", "inf", "-inf", "0x10", "１２", "1_0", " 5 ", "5.", ".5", "+5", "--5", "1e3", "٣", "1,5"])
     return f"@{s}:{f}={v}"
 
 
@@ -111,6 +113,15 @@ def run(ctx: core.Ctx):
                 sh = list(api_cmds)
                 rng.shuffle(sh)
                 streams.append(("typed-api-shuffled", sh))
+        # relative steps on whatever text is stored for a volume function (a client can store any text: the typed API's raw entry, another client)
+        rel = []
+        for z in ("MAIN", "ZONE2", "ZONE3", "ZONE4"):
+            for fn_ in ("VOL", "ZONEBVOL"):
+                for base in ("-30.0", "-30.5", "0.0", "16.5", "-80.5", "5", "1/0", "3/4", "1e400", "nan", "inf", "-inf", "0x10", "１２", "1_0", " 5 ", "5.", ".5", "+5", "--5", "1e3", "٣",
+                             "1,5", "", "abc", "Up", "Down", "@home", "-0.0", "99999999999999999999", "1e-400"):
+                    rel.append(f"@{z}:{fn_}={base}")
+                    rel += [f"@{z}:{fn_}={w}" for w in rng.sample(["Up", "Down", "Up 1 dB", "Down 2 dB", "Up 5 dB", "Down 5 dB", "Up 1.0 dB", "Down x dB"], 3)]
+        streams.append(("relative-steps", rel))
         for stream, lines in streams:
             real = srv.RealServer(path, pairs)
             ops = (srv.model_ingest_ops(path)[:-1] if path else ["reset"] + [f"add {core.hx(s)} {core.hx(f)} {core.hx(v)}" for s, f, v in pairs])
